@@ -51,6 +51,12 @@ structure St where
   out : List (Nat × Nat) := []
   /-- everything each stream was ever given to yield (ghost) -/
   hist : Nat → List Nat := fun _ => []
+  /-- keys of the streams that returned `Pending` during the CURRENT `poll_next` call -/
+  seen : List Nat := []
+  /-- environment: the executor's cooperative budget is exhausted for the rest of the current
+  call — every stream poll returns `Pending` and wakes itself at once (tokio's coop budget when
+  `recv` is awaited directly in `block_on` of a multi-thread runtime) -/
+  exhausted : Bool := false
 
 def upd {α} (f : Nat → α) (k : Nat) (v : α) : Nat → α := fun j => if j = k then v else f j
 @[simp] theorem upd_same {α} (f : Nat → α) k v : upd f k v k = v := by simp [upd]
@@ -71,6 +77,7 @@ inductive Op
   | close (k : Nat)
   | pollStart            -- application (re)polls: idle → a, or parked∧notified → a
   | recvStep             -- receiver executes its next section
+  | exhaust              -- the cooperative budget runs out (until the current/next call returns)
 deriving Repr, DecidableEq
 
 /-- a stream waker with ticket t for key k fires: lock; push; take+wake receiver waker -/
@@ -108,18 +115,36 @@ def doClose (s : St) (k : Nat) : St :=
 
 def doPollStart (s : St) : St :=
   match s.pc with
-  | .idle => { s with pc := .a, notified := false }
-  | .parked => { s with pc := .a, notified := false }     -- spurious polls are legal
+  | .idle => { s with pc := .a, notified := false, seen := [] }
+  | .parked => { s with pc := .a, notified := false, seen := [] }     -- spurious polls are legal
   | _ => s
 
-def doA (s : St) : St :=
+/-- lock section A proper: publish the waker, pop the minimum-ticket event, check the stream out -/
+def doAcore (s : St) : St :=
   match popMin s.heap with
-  | none => { s with waker := true, pc := .parked }
+  | none => { s with waker := true, pc := .parked, exhausted := false }
   | some ((t, k), rest) =>
     if s.reg k = .inMap then { s with waker := true, heap := rest, reg := upd s.reg k .out, pc := .b t k }
     else { s with waker := true, heap := rest }
 
-def doB (s : St) (t k : Nat) : St :=
+/-- give the executor a chance to run: keep every event, wake the receiver's own waker, return
+`Pending` -/
+def yieldNow (s : St) : St :=
+  { s with waker := true, pc := .parked, notified := true, wakes := s.wakes + 1, exhausted := false }
+
+/-- lock section A: if the next event belongs to a stream that ALREADY returned `Pending` during
+this very `poll_next` call (it woke itself — e.g. the executor's cooperative budget is exhausted —
+or an event for it landed in the window), polling it again now could spin for ever: yield. -/
+def doA (s : St) : St :=
+  match popMin s.heap with
+  | some ((_, k), _) => if s.seen.contains k then yieldNow s else doAcore s
+  | none => doAcore s
+
+/-- section B when the cooperative budget is exhausted: the stream returns `Pending` after
+waking itself — its waker (carrying ticket `t`) fires at once -/
+def doBex (s : St) (t k : Nat) : St := { fire s t k with pc := .c t k .pend }
+
+def doBcore (s : St) (t k : Nat) : St :=
   let p := s.peer k
   match p.q with
   | item :: q' => { s with peer := upd s.peer k { p with q := q' }, pc := .c t k (.some item) }
@@ -127,11 +152,13 @@ def doB (s : St) (t k : Nat) : St :=
     if p.closed then { s with pc := .c t k .none }
     else { s with peer := upd s.peer k { p with armed := some t }, pc := .c t k .pend }
 
+def doB (s : St) (t k : Nat) : St := if s.exhausted then doBex s t k else doBcore s t k
+
 def doC (s : St) (k : Nat) : Res → St
   | .some item => { s with heap := (s.counter, k) :: s.heap, counter := s.counter + 1, reg := upd s.reg k .inMap,
-                           pc := .idle, out := s.out ++ [(k, item)] }
+                           pc := .idle, out := s.out ++ [(k, item)], exhausted := false }
   | .none => { s with reg := upd s.reg k .gone, pc := .a }
-  | .pend => { s with reg := upd s.reg k .inMap, pc := .a }
+  | .pend => { s with reg := upd s.reg k .inMap, pc := .a, seen := k :: s.seen }
 
 def doRecv (s : St) : St :=
   match s.pc with
@@ -147,6 +174,7 @@ def step (s : St) : Op → St
   | .close k => doClose s k
   | .pollStart => doPollStart s
   | .recvStep => doRecv s
+  | .exhaust => { s with exhausted := true }
 
 /-- number of heap events for key k -/
 def cnt (h : List (Nat × Nat)) (k : Nat) : Nat := (h.filter (fun e => e.2 = k)).length
